@@ -138,7 +138,7 @@ def run_property(pid: str, tier: str, seed: int, jobs: int = None, only=None):
     reg = load_contracts()
     breg = load_bounded()
     known = load_known()
-    known_ids = {f["id"]: f for f in known.get("findings", []) if f.get("property") == pid}
+    known_ids = {f["id"]: f for f in known.get("findings", []) if pid in (f.get("properties") or [f.get("property")])}
 
     tasks = []
     for key, c in sorted(reg.items()):
